@@ -627,9 +627,13 @@ def check(run: Run):
     tm = {}
     with Scratch("C01") as scratch:
         rate = float(os.environ.get("VERIF_C01_SAMPLE", "0.02" if tier == "quick" else "0.01"))
-        stages = os.environ.get("VERIF_C01_STAGES", "exhaustive,deep").split(",")  # debugging aid
+        stages = os.environ.get("VERIF_C01_STAGES", "exhaustive,read,deep").split(",")  # debugging aid
         if "exhaustive" in stages:
             stage(run, scratch, "exhaustive", f"MC_SeqView_{tier}.cfg", totals, driftacc, tm, rate)
+        if "read" in stages:
+            import read_C01
+
+            read_C01.stage_read(run, scratch, tier, totals, tm)
         if tier == "thorough" and "deep" in stages:
             # longer roots (5-10 residues, offsets 0 and 7): seeded random walks of the same model through views that
             # still display >= 2 residues; TLC evaluates (and emits) the full fan-out of every view it visits
